@@ -537,8 +537,8 @@ impl<Aux> Vm<'_, Aux> {
                         .push(val)
                         .map_err(|_| ExecutionErrorPayload::Stackoverflow)
                         .map_err(|err| {
-                            // free the object on Stackoverflow
-                            self.runtime_data.free_object(obj.0);
+                            // the object stays in the object list: the next collection, or
+                            // clearing the vm, releases it
                             payload_to_error(err, src_ptr, &self.runtime_data.call_stack)
                         })?;
                 }
@@ -559,8 +559,8 @@ impl<Aux> Vm<'_, Aux> {
                         .push(val)
                         .map_err(|_| ExecutionErrorPayload::Stackoverflow)
                         .map_err(|err| {
-                            // free the object on Stackoverflow
-                            self.runtime_data.free_object(obj.0);
+                            // the object stays in the object list: the next collection, or
+                            // clearing the vm, releases it
                             payload_to_error(err, src_ptr, &self.runtime_data.call_stack)
                         })?;
                 }
@@ -581,8 +581,8 @@ impl<Aux> Vm<'_, Aux> {
                         .push(val)
                         .map_err(|_| ExecutionErrorPayload::Stackoverflow)
                         .map_err(|err| {
-                            // free the object on Stackoverflow
-                            self.runtime_data.free_object(obj.0);
+                            // the object stays in the object list: the next collection, or
+                            // clearing the vm, releases it
                             payload_to_error(err, src_ptr, &self.runtime_data.call_stack)
                         })?;
                 }
